@@ -114,14 +114,12 @@ Section Machine.
         (mkState (PAuth (framing_of p v) O ms out)
            (ESend (abytes (framing_of p v)) :: ERecv (ROk pl) :: tr s))
   | SR_next r ch f i ms out ms' resp : ph s = PAuth f i ms out ->
-      r = ROk ch \/ r = RNegLen -> snd (mech_next ms ch) = true ->
+      r = ROk ch -> snd (mech_next ms ch) = true ->
       stepR s (LBroker r)
         (mkState (PAuth f (S i) ms' resp) (ESend (abytes f) :: ERecv r :: tr s))
   | SR_acc r ch f i ms out : ph s = PAuth f i ms out ->
-      r = ROk ch \/ r = RNegLen -> snd (mech_next ms ch) = true ->
+      r = ROk ch -> snd (mech_next ms ch) = true ->
       stepR s (LBroker r) (mkState PAccepted (EVerdict :: ERecv r :: tr s))
-  | SR_panic f i ms out : ph s = PAuth f i ms out ->
-      stepR s (LBroker RNegLen) (mkState PPanicked (EPanic :: ERecv RNegLen :: tr s))
   | SR_ret : ph s = PAccepted -> stepR s LReturn (mkState PHandedOut (EHandOut :: tr s))
   | SR_use k v : ph s = PHandedOut ->
       (k =? K_SaslHandshake) || (k =? K_SaslAuthenticate) = false ->
@@ -130,7 +128,7 @@ Section Machine.
       stepR s LUserClose (mkState PUserClosed (EClose :: tr s)).
 
   Lemma onch_stepR : forall s f i ms out r ch, ph s = PAuth f i ms out ->
-    r = ROk ch \/ r = RNegLen -> stepR s (LBroker r) (onch s f i ms r ch).
+    r = ROk ch -> stepR s (LBroker r) (onch s f i ms r ch).
   Proof.
     intros s f i ms out r ch E Hr. unfold on_challenge.
     destruct (mech_next ms ch) as [[[d ms'] resp] ok] eqn:N.
@@ -164,13 +162,7 @@ Section Machine.
       + destruct f; [|discriminate H]. destruct (c =? 0); [discriminate H|].
         injection H as <-. apply SR_fail; rewrite E; exact I.
       + injection H as <-. apply SR_fail; rewrite E; exact I.
-      + destruct f; [discriminate H|].
-        assert (D : s' = onch s Raw i ms RNegLen [] \/
-                    s' = mkState PPanicked (EPanic :: ERecv RNegLen :: tr s)).
-        { revert H. case p; intros H; injection H as <-; auto. }
-        destruct D as [-> | ->].
-        * eapply onch_stepR; eauto.
-        * eapply SR_panic; eauto.
+      + destruct f; [discriminate H|]. injection H as <-. apply SR_fail; rewrite E; exact I.
       + injection H as <-. apply SR_fail; rewrite E; exact I.
     - injection H as <-. apply SR_ret; exact E.
     - destruct ((k =? K_SaslHandshake) || (k =? K_SaslAuthenticate)) eqn:G; [discriminate H|].
@@ -244,14 +236,13 @@ Section Machine.
     { apply step_stepR in H. remember (LBroker r) as l eqn:L. unfold failing in F.
       destruct H as [E | r0 P | pl E V | pl v ms out E M
                     | r0 ch f i ms out ms' resp E D N | r0 ch f i ms out E D N
-                    | f i ms out E | E | k v E G | E];
+                    | E | k v E G | E];
         try discriminate L; injection L as <-; cbv beta iota in F.
       - auto.
       - rewrite E in F. apply Z.ltb_ge in V. lia.
       - rewrite E in F. congruence.
-      - destruct D as [-> | ->]; [cbv beta iota in F; rewrite E in F; congruence | contradiction].
-      - destruct D as [-> | ->]; [cbv beta iota in F; rewrite E in F; congruence | contradiction].
-      - contradiction. }
+      - subst r0. cbv beta iota in F. rewrite E in F. congruence.
+      - subst r0. cbv beta iota in F. rewrite E in F. congruence. }
     destruct D as [P ->].
     assert (NP : ~ post (ph s)) by (revert P; destruct (ph s); cbn; tauto).
     destruct (early_inv s R NP) as [A B].
@@ -335,11 +326,11 @@ Section Run.
   Qed.
 
   Lemma drive_stuck : forall n fault k (s : stt) ss,
-    ph s = PFailed \/ ph s = PPanicked \/ ph s = PHandedOut \/ ph s = PUserClosed ->
+    ph s = PFailed \/ ph s = PHandedOut \/ ph s = PUserClosed ->
     drv n fault k s ss = s.
   Proof.
     intros n fault k s ss H. destruct n; cbn [drive]; [reflexivity|].
-    destruct H as [H|[H|[H|H]]]; rewrite H; reflexivity.
+    destruct H as [H|[H|H]]; rewrite H; reflexivity.
   Qed.
 
   Lemma drive_accepted : forall n fault k (s : stt) ss,
@@ -378,10 +369,9 @@ Section Run.
     end.
   Proof.
     intros n H. apply Z.ltb_ge in H.
-    change (3 + n)%nat with (S (S (S n))). cbn [drive init ph pick].
-    unfold step at 1. cbn [ph tr pick]. unfold step at 1. cbn [ph tr]. rewrite H.
-    cbn [ph]. unfold step at 1. cbn [ph tr].
-    destruct mech_start as [[ms out]|].
+    change (3 + n)%nat with (S (S (S n))). unfold init.
+    cbn [drive ph tr step pick]. rewrite H. cbn [drive ph tr step pick].
+    destruct mech_start as [[ms out]|] eqn:M; rewrite <- M.
     - eapply drive_corun. reflexivity.
     - rewrite drive_stuck; [reflexivity|cbn; tauto].
   Qed.
@@ -395,40 +385,4 @@ Proof.
   assert (R : reachable nat (shape_start k) (shape_next k) p a s0)
     by (apply drive_reachable; apply reach_init).
   cbv zeta. destruct (handed_out s0); [apply first_use_reachable|]; exact R.
-Qed.
-
-Definition neglen_advert : advert := {| hs_max := Some 0; auth_max := None |}.
-
-Lemma neglen_pre : forall p,
-  reachable nat (shape_start MPlain) (shape_next MPlain) p neglen_advert
-    (mkState (PAuth Raw O O [T_client_first])
-       [ESend MRaw; ERecv (ROk []); ESend (MReq K_SaslHandshake 0); ERecv (ROk []);
-        ESend (MReq K_ApiVersions 0)]).
-Proof.
-  intros p.
-  eapply reach_step with (l := LBroker (ROk [])).
-  eapply reach_step with (l := LBroker (ROk [])).
-  eapply reach_step with (l := LStart).
-  apply reach_init.
-  reflexivity. destruct p; reflexivity. destruct p; reflexivity.
-Qed.
-
-Lemma neglen_transport_panics :
-  exists (a : advert) (s s' : state nat),
-    reachable nat (shape_start MPlain) (shape_next MPlain) Transport a s /\
-    step nat (shape_start MPlain) (shape_next MPlain) Transport a s (LBroker RNegLen) = Some s' /\
-    ph s' = PPanicked /\ tr s' = EPanic :: ERecv RNegLen :: tr s.
-Proof.
-  exists neglen_advert. eexists. eexists.
-  split; [apply (neglen_pre Transport)|]. split; [reflexivity|]. split; reflexivity.
-Qed.
-
-Lemma neglen_dialer_accepts :
-  exists (a : advert) (s s' : state nat),
-    reachable nat (shape_start MPlain) (shape_next MPlain) Dialer a s /\
-    step nat (shape_start MPlain) (shape_next MPlain) Dialer a s (LBroker RNegLen) = Some s' /\
-    ph s' = PAccepted /\ tr s' = EVerdict :: ERecv RNegLen :: tr s.
-Proof.
-  exists neglen_advert. eexists. eexists.
-  split; [apply (neglen_pre Dialer)|]. split; [reflexivity|]. split; reflexivity.
 Qed.
